@@ -346,7 +346,8 @@ def _const_values(repo: Repo, mod: Module, e: ast.AST) -> T.Optional[T.FrozenSet
 class PrecTable:
     """value(kind) -> int | 'inner:<attr>' (delegates to the level of node.<attr>) | None (raises / returns nothing)."""
 
-    def __init__(self, table: tables.Table, classes: T.Dict[str, T.List[str]], discr: T.Dict[str, str], fname: str):
+    def __init__(self, table: tables.Table, classes: T.Dict[str, T.List[str]], discr: T.Dict[str, str], fname: str, mod: T.Optional[Module] = None):
+        self.mod = mod
         self.table = table
         self.classes = classes
         self.discr = discr
@@ -366,6 +367,12 @@ class PrecTable:
         oc = fired[0].outcome
         if oc[0] == 'return':
             e = ast.parse(oc[1], mode='eval').body
+            if isinstance(e, ast.Name) and fired[0].path is not None and not e.id.startswith('ARG'):
+                from .c17_splice import sym_exec       # single exit: `level = 3 ... return level`
+                env = sym_exec(fired[0].path)
+                if e.id in env:
+                    e = env[e.id]
+            e = self._fold(e, cls, dv)
             if isinstance(e, ast.Constant) and isinstance(e.value, int) and not isinstance(e.value, bool):
                 return e.value
             if isinstance(e, ast.Constant) and e.value is None:
@@ -379,7 +386,55 @@ class PrecTable:
             return None
         raise Undecided(f'{self.fname}: outcome {oc} for {kind}')
 
+    def _fold(self, e: ast.AST, cls: str, dv: T.Optional[str]) -> ast.AST:
+        """CONST_TABLE.get(ARG1.<discr>) / CONST_TABLE[ARG1.<discr>] for a concrete kind: a lookup in a folded constant table."""
+        attr = self.discr.get(cls)
+        key: T.Optional[ast.AST] = None
+        default: T.Any = None
+        if isinstance(e, ast.Call) and isinstance(e.func, ast.Attribute) and e.func.attr == 'get' and isinstance(e.func.value, ast.Name) and 1 <= len(e.args) <= 2:
+            tabn, key = e.func.value.id, e.args[0]
+            if len(e.args) == 2:
+                if not isinstance(e.args[1], ast.Constant):
+                    return e
+                default = e.args[1].value
+        elif isinstance(e, ast.Subscript) and isinstance(e.value, ast.Name):
+            tabn, key = e.value.id, e.slice
+        else:
+            return e
+        if norm(key) == 'type(ARG1)' and self.mod is not None and self.mod.has_assign(tabn):
+            by_cls = self._class_table(tabn)
+            if by_cls is None:
+                return e
+            return ast.Constant(value=by_cls.get(cls, default))
+        if attr is None or norm(key) != f'ARG1.{attr}' or self.mod is None or not self.mod.has_assign(tabn):
+            return e
+        try:
+            d = fold_expr(self.mod.repo, self.mod, self.mod.assign_value(tabn))
+        except Undecided:
+            return e
+        if not isinstance(d, dict):
+            return e
+        return ast.Constant(value=d.get(dv, default))
+
+    def _class_table(self, tabn: str) -> T.Optional[T.Dict[str, T.Any]]:
+        from ..consteval import Opaque
+        try:
+            d = fold_expr(self.mod.repo, self.mod, self.mod.assign_value(tabn))  # type: ignore[union-attr]
+        except Undecided:
+            return None
+        if not isinstance(d, dict) or not all(isinstance(k, Opaque) and k.kind == 'class' for k in d):
+            return None
+        return {k.name: v for k, v in d.items()}
+
     def _atom(self, a: tables.Atom, cls: str, dv: T.Optional[str]) -> bool:
+        if a.kind == 'in' and a.args[0] == 'type(ARG1)' and self.mod is not None and self.mod.has_assign(a.args[1]):
+            by_cls = self._class_table(a.args[1])
+            if by_cls is not None:
+                return cls in by_cls          # type(x) is exact: no subclass match
+        if a.kind == 'is' and a.args[1] == 'None':
+            f = self._fold(ast.parse(a.args[0], mode='eval').body, cls, dv)
+            if isinstance(f, ast.Constant):
+                return f.value is None
         if a.kind == 'isinstance' and a.args[0] == 'ARG1':
             names = {n.split('.')[-1] for n in a.args[1]}
             for n in names:
@@ -402,7 +457,144 @@ class PrecTable:
         raise Undecided(f'{self.fname}: atom {a!r} is outside the vocabulary (isinstance on the node, tests on its discriminating attribute)')
 
 
+class _Sub(ast.NodeTransformer):
+    def __init__(self, env: T.Dict[str, ast.AST]):
+        self.env = env
+
+    def visit_Name(self, n: ast.Name) -> ast.AST:
+        if isinstance(n.ctx, ast.Load) and n.id in self.env:
+            import copy
+            return copy.deepcopy(self.env[n.id])
+        return n
+
+
+def _const_truth(e: ast.AST) -> T.Optional[bool]:
+    """Truth of a comparison between constants (what is left of `level is None` once the table row is substituted)."""
+    if isinstance(e, ast.Constant):
+        return bool(e.value)
+    if isinstance(e, ast.Compare) and len(e.ops) == 1 and isinstance(e.left, ast.Constant) and isinstance(e.comparators[0], ast.Constant):
+        a, b, op = e.left.value, e.comparators[0].value, e.ops[0]
+        if isinstance(op, ast.Is):
+            return a is b
+        if isinstance(op, ast.IsNot):
+            return a is not b
+        if isinstance(op, ast.Eq):
+            return bool(a == b)
+        if isinstance(op, ast.NotEq):
+            return bool(a != b)
+    return None
+
+
+def _unrolled_rows(mod: Module, fn: ast.FunctionDef) -> T.List[tables.Row]:
+    """Decision table of a function that walks a *constant* tuple of rows (`for a, b in TABLE: ...`): the loop is unrolled
+    over the table's own AST (source-to-source), every body path is replayed with the row substituted (copy propagation, constant
+    comparisons folded), `continue` goes to the next row, `break` to the code after the loop."""
+    import copy
+    from ..paths import enumerate_paths
+    params = [a.arg for a in fn.args.args]
+    ren: T.Dict[str, ast.AST] = {p: ast.Name(id=f'ARG{i + 1}', ctx=ast.Load()) for i, p in enumerate(x for x in params if x not in ('self', 'cls'))}
+    out: T.List[tables.Row] = []
+
+    def replay(path: T.Any, env: T.Dict[str, ast.AST], conds: T.List[T.Tuple[ast.AST, bool]]) -> T.Optional[T.Tuple[T.Dict[str, ast.AST], T.List[T.Tuple[ast.AST, bool]], T.Optional[ast.AST]]]:
+        env = dict(env)
+        conds = list(conds)
+        for ev in path.events:
+            if ev.kind == 'cond':
+                e = _Sub(env).visit(copy.deepcopy(ev.node))
+                ct = _const_truth(e)
+                if ct is not None:
+                    if ct != ev.val:
+                        return None
+                    continue
+                conds.append((e, ev.val))
+            elif ev.kind == 'stmt' and isinstance(ev.node, ast.Assign) and len(ev.node.targets) == 1 and isinstance(ev.node.targets[0], ast.Name):
+                env[ev.node.targets[0].id] = _Sub(env).visit(copy.deepcopy(ev.node.value))
+            elif ev.kind == 'stmt' and isinstance(ev.node, (ast.Return, ast.Raise, ast.Pass, ast.Expr)):
+                pass
+            elif ev.kind == 'stmt':
+                raise Undecided(f'{fn.name}: statement {short(ev.node)} inside the table walk')
+            else:
+                raise Undecided(f'{fn.name}: {ev.kind} inside the table walk')
+        val = _Sub(env).visit(copy.deepcopy(path.value)) if path.value is not None else None
+        return env, conds, val
+
+    def emit(conds: T.List[T.Tuple[ast.AST, bool]], outcome: str, val: T.Optional[ast.AST], path: T.Any) -> None:
+        cd: T.Dict[tables.Atom, bool] = {}
+        for e, v in conds:
+            a, pol = tables.canon(_Sub(ren).visit(copy.deepcopy(e)), v)
+            if cd.get(a, pol) != pol:
+                return
+            cd[a] = pol
+        if outcome == 'return':
+            oc: T.Tuple[T.Any, ...] = ('return', norm(_Sub(ren).visit(copy.deepcopy(val))) if val is not None else 'None')
+        elif outcome == 'raise':
+            oc = ('raise', norm(val.func if isinstance(val, ast.Call) else val) if val is not None else '<reraise>')
+        else:
+            oc = (outcome,)
+        out.append(tables.Row(cd, oc, (), path))
+
+    def block(stmts: T.List[ast.stmt], env: T.Dict[str, ast.AST], conds: T.List[T.Tuple[ast.AST, bool]]) -> None:
+        for i, st in enumerate(stmts):
+            if isinstance(st, ast.For) and not st.orelse:
+                tab = st.iter
+                if isinstance(tab, ast.Name) and mod.has_assign(tab.id):
+                    tab = mod.assign_value(tab.id)
+                if not isinstance(tab, (ast.Tuple, ast.List)):
+                    raise Undecided(f'{fn.name}: loop over {short(st.iter)}, not a constant tuple')
+                tnames = [norm(e) for e in st.target.elts] if isinstance(st.target, (ast.Tuple, ast.List)) else [norm(st.target)]
+                body_paths = enumerate_paths(st.body, unroll=0)
+
+                def rows(k: int, env: T.Dict[str, ast.AST], conds: T.List[T.Tuple[ast.AST, bool]]) -> None:
+                    if k == len(tab.elts):  # type: ignore[union-attr]
+                        block(stmts[i + 1:], env, conds)
+                        return
+                    row = tab.elts[k]  # type: ignore[union-attr]
+                    vals = list(row.elts) if isinstance(st.target, (ast.Tuple, ast.List)) and isinstance(row, (ast.Tuple, ast.List)) else [row]
+                    if len(vals) != len(tnames):
+                        raise Undecided(f'{fn.name}: table row {short(row)} does not match the loop target')
+                    env_k = {**env, **dict(zip(tnames, vals))}
+                    for p in body_paths:
+                        r = replay(p, env_k, conds)
+                        if r is None:
+                            continue
+                        env2, conds2, val = r
+                        if p.outcome in ('fall', 'continue'):
+                            rows(k + 1, env2, conds2)
+                        elif p.outcome == 'break':
+                            block(stmts[i + 1:], env2, conds2)
+                        else:
+                            emit(conds2, p.outcome, val, p)
+                rows(0, env, conds)
+                return
+            sub_paths = enumerate_paths([st], unroll=0)
+            if any(isinstance(x, (ast.For, ast.While)) for x in ast.walk(st)):
+                raise Undecided(f'{fn.name}: nested loop')
+            nxt: T.List[T.Tuple[T.Dict[str, ast.AST], T.List[T.Tuple[ast.AST, bool]]]] = []
+            for p in sub_paths:
+                r = replay(p, env, conds)
+                if r is None:
+                    continue
+                env2, conds2, val = r
+                if p.outcome == 'fall':
+                    nxt.append((env2, conds2))
+                else:
+                    emit(conds2, p.outcome, val, p)
+            if len(nxt) > 1:
+                for env2, conds2 in nxt:
+                    block(stmts[i + 1:], env2, conds2)
+                return
+            if not nxt:
+                return
+            env, conds = nxt[0]
+        emit(conds, 'fall', None, None)
+    block(fn.body, {}, [])
+    return out
+
+
 def prec_table(mod: Module, classes: T.Dict[str, T.List[str]], discr: T.Dict[str, str], fname: str = 'precedence_level') -> PrecTable:
     fn = T.cast(ast.FunctionDef, mod.func(fname))
-    tab = tables.extract(fn, name=fname, inline=True)
-    return PrecTable(tab, classes, discr, fname)
+    if any(isinstance(n, ast.For) for n in ast.walk(fn)):
+        tab = tables.Table(_unrolled_rows(mod, fn), fname)       # table-driven: unrolled over the constant table
+    else:
+        tab = tables.extract(fn, name=fname, inline=True)
+    return PrecTable(tab, classes, discr, fname, mod)
